@@ -297,6 +297,21 @@ impl<'a> B<'a> {
                     call1("length", self.arg(t, d1))
                 }
                 3 => call1("strlen", self.arg(Ty::Str, d1)),
+                // the left operand reads an any-typed location that the right operand then narrows
+                // to an integer: the operation can fail (the left operand is read first), so the
+                // compiler must not accept it unhandled
+                5 if self.pure == 0 && self.c.chance(1, 3) => {
+                    // no `*`: a string left operand times a large integer is an allocation request
+                    let op = [BinOp::Add, BinOp::Sub][self.c.below(2)];
+                    let anys = self.vars_of(Ty::Any);
+                    if !anys.is_empty() && self.c.chance(1, 2) {
+                        let v = anys[self.c.below(anys.len())].clone();
+                        E::Bin(op, Box::new(E::Var(v.clone(), vec![])), Box::new(E::Assign(Target::Var(v, vec![]), Box::new(self.lit(Ty::Int)))))
+                    } else {
+                        let p = self.ev_path();
+                        E::Bin(op, Box::new(E::Ev(p.clone())), Box::new(E::Assign(Target::Ev(p), Box::new(self.lit(Ty::Int)))))
+                    }
+                }
                 _ => self.lit(Ty::Int),
             },
             Ty::Float => match self.c.below(4) {
